@@ -103,7 +103,7 @@ func runCheck(prop, tier string, seed int) int {
 	// functions under contract for this property
 	var keys []string
 	for k, c := range S.Contracts {
-		if c.Props[prop] && !c.Trusted {
+		if c.Props[prop] && !c.Trusted && !c.Unverified {
 			keys = append(keys, k)
 		}
 	}
